@@ -482,14 +482,14 @@ func (s *c16src) materialize() {
 }
 
 type c16case struct {
-	binaries   []string // build ids for which a local binary is installed
-	srcs       []*c16src
-	diffBase   bool
-	hasBase    bool
-	remote     bool
+	binaries      []string // build ids for which a local binary is installed
+	srcs          []*c16src
+	diffBase      bool
+	hasBase       bool
+	remote        bool
 	realTransport bool // URL sources go through internal/transport over the simulated TLS network
 	tlsCA         int  // with realTransport: 0 no -tls_ca; 1 a CA file that makes the self-signed servers trusted; 2 a CA file that does not exist (every URL source fails)
-	saveENOSPC bool
+	saveENOSPC    bool
 }
 
 // perfSrc maps the perf.data paths of the installed case to their sources
